@@ -38,7 +38,7 @@ COMPONENTS = {
 }
 RULE = (
     "one run = 2-4 client threads + 1 adversary thread under the seeded scheduler; ops drawn per client from "
-    "{seeded generator call, unseeded call, PGM/PBM on a generated ensemble, measure on generated state}; "
+    "{seeded generator call (Python or numpy integer seeds, seeds up to 2**63), the same call with one argument changed minimally, unseeded call, PGM/PBM on a generated ensemble in several input forms, measure on a generated state with square / isometric / incomplete Kraus sets}; list-valued arguments are long-lived objects of the client; "
     "non-trivial = at least one switch landed inside a library call AND the adversary wrote the global RNG between two events of one client "
     "AND some seeded triple was evaluated >=3 times; distinct = distinct digest of (operations, switch sequence)"
 )
